@@ -22,24 +22,24 @@ static const char *k_state_rule =
         "queue and a no-op are still counted once each, so the number is an upper bound by at most the op-kind count.";
 
 static const CheckDef defs[] = {
-        { "C04", "solo", 6000, 120000, 100, 1500, "exploration", k_state_rule },
-        { "C05", "sched", 12000, 200000, 100, 1500, "exploration", k_state_rule },
-        { "C07", "guard", 30000, 600000, 100, 1500, "exploration", k_state_rule },
-        { "C13", "scrub", 6000, 100000, 100, 1500, "exploration", k_state_rule },
-        { "C14", "desc", 12000, 200000, 100, 1500, "exploration", k_state_rule },
-        { "C18", "cc", 12000, 200000, 100, 1500, "exploration", k_state_rule },
-        { "C17", "indep", 6000, 100000, 100, 1500, "exploration", k_state_rule },
-        { "C01", "ref_cipher", 8000, 200000, 100, 1500, "exploration", k_state_rule },
-        { "C02", "ref_hash", 8000, 200000, 100, 1500, "exploration", k_state_rule },
-        { "C03", "ref_aead", 8000, 200000, 100, 1500, "exploration", k_state_rule },
-        { "C06", "ref_chain", 8000, 200000, 100, 1500, "exploration", k_state_rule },
-        { "C08", "xvar", 4000, 80000, 100, 1500, "exploration", k_state_rule },
-        { "C09", "entry", 6000, 150000, 100, 1500, "exploration", k_state_rule },
-        { "C10", "sgl", 6000, 150000, 100, 1500, "exploration", k_state_rule },
-        { "C11", "keyprep", 6000, 150000, 100, 1500, "exploration", k_state_rule },
-        { "C12", "reject", 20000, 400000, 100, 1500, "fault_enumeration", k_state_rule },
-        { "C15", "reinit", 8000, 150000, 100, 1500, "exploration", k_state_rule },
-        { "C16", "reattach", 8000, 150000, 100, 1500, "exploration", k_state_rule },
+        { "C04", "solo", 6000, 2000000, 100, 900, "exploration", k_state_rule },
+        { "C05", "sched", 12000, 2000000, 100, 900, "exploration", k_state_rule },
+        { "C07", "guard", 30000, 2000000, 100, 900, "exploration", k_state_rule },
+        { "C13", "scrub", 6000, 2000000, 100, 900, "exploration", k_state_rule },
+        { "C14", "desc", 12000, 2000000, 100, 900, "exploration", k_state_rule },
+        { "C18", "cc", 12000, 2000000, 100, 900, "exploration", k_state_rule },
+        { "C17", "indep", 6000, 2000000, 100, 900, "exploration", k_state_rule },
+        { "C01", "ref_cipher", 8000, 2000000, 100, 900, "exploration", k_state_rule },
+        { "C02", "ref_hash", 8000, 2000000, 100, 900, "exploration", k_state_rule },
+        { "C03", "ref_aead", 8000, 2000000, 100, 900, "exploration", k_state_rule },
+        { "C06", "ref_chain", 8000, 2000000, 100, 900, "exploration", k_state_rule },
+        { "C08", "xvar", 4000, 2000000, 100, 900, "exploration", k_state_rule },
+        { "C09", "entry", 6000, 2000000, 100, 900, "exploration", k_state_rule },
+        { "C10", "sgl", 6000, 2000000, 100, 900, "exploration", k_state_rule },
+        { "C11", "keyprep", 6000, 2000000, 100, 900, "exploration", k_state_rule },
+        { "C12", "reject", 20000, 2000000, 100, 900, "fault_enumeration", k_state_rule },
+        { "C15", "reinit", 8000, 2000000, 100, 900, "exploration", k_state_rule },
+        { "C16", "reattach", 8000, 2000000, 100, 900, "exploration", k_state_rule },
 };
 
 int
